@@ -536,6 +536,8 @@ def summarize(all_cases, counters, extras):
             "numpy_float32_integer": 4e-6,
             "torch_float64_integer": 4e-6,
             "torch_float32_integer": "1e-5*up (6e-4 at up=64)",
-            "sub_pixel_worst_by_factor_numpy": {"1": 0.18, "2": 0.056, "3": 0.048, "4": 0.03, "8": 0.017, "16": 0.0073, "32": 0.0044, "64": 0.002},
+            "sub_pixel_worst_by_factor_numpy_1500_pairs": {"1": 0.18, "2": 0.056, "3": 0.048, "4": 0.03, "8": 0.017, "16": 0.0073, "32": 0.0044, "64": 0.002},
+            "sub_pixel_worst_by_factor_all_backends_3_thorough_runs": {"1": 0.37, "2": 0.36, "3": 0.12, "4": 0.047, "8": 0.025, "16": 0.012, "32": 0.008, "64": 0.0043},
+            "note": "factors 1 and 2 are dominated by the torch port's half-pixel rounding (parabolic error + <= 0.25 px)",
         },
     }
